@@ -211,8 +211,9 @@ func (x *evalCtx) pristine(k pkey) obs {
 			return obs{Class: "skip"}
 		}
 		return x.observe(false, func(o *obs) {
-			v, err := c(envMakers[k.ienv]())
+			v, dbg, err := callWith(k.spec, c, envMakers[k.ienv]())
 			valObs(o, v, err)
+			o.Debug = dbg
 		})
 	case "eval":
 		return x.observe(false, func(o *obs) {
@@ -376,9 +377,11 @@ func runHist13(h *Hist13, x *evalCtx) hist13Result {
 					continue
 				}
 				env, snap, host := carrier(op.Carrier, op.Env, false)
+				cspec := h.Engines[h.Ops[op.C].Eng]
 				got[i] = x.observe(op.StdoutFail, func(o *obs) {
-					v, err := c(env)
+					v, dbg, err := callWith(cspec, c, env)
 					valObs(o, v, err)
+					o.Debug = dbg
 				})
 				if host != nil && deepSnapshot(host) != snap {
 					hostChanged[i] = "host value modified by invocation"
@@ -423,7 +426,7 @@ func runHist13(h *Hist13, x *evalCtx) hist13Result {
 								panic(rr)
 							}
 						}()
-						e := buildEngine(EngineSpec{backends[r.intn(4)], true}, x.recFn)
+						e := buildEngine(EngineSpec{pickBackend(r), true}, x.recFn)
 						if c, err := e.Compile(p.Src, envMakers[p.Env]()); err == nil && j%2 == 0 {
 							c(envMakers[p.Env]())
 						}
@@ -504,7 +507,7 @@ func genHist13(r *rng) *Hist13 {
 	h := &Hist13{}
 	ne := 1 + r.intn(3)
 	for i := 0; i < ne; i++ {
-		h.Engines = append(h.Engines, EngineSpec{backends[r.intn(4)], r.chance(0.6)})
+		h.Engines = append(h.Engines, EngineSpec{pickBackend(r), r.chance(0.6)})
 	}
 	n := 6 + r.intn(30)
 	var compiles []int
